@@ -1,8 +1,8 @@
 (* C02 — The document sent is the document written.
    Property theorems only; proofs live in Proofs/OpStrP.v and Proofs/MultilineP.v. *)
 From Coq Require Import List String Ascii Bool Arith.
-From AC Require Import Base.Strs Base.Sexp Gql.Schema Gql.Doc Model.Results Model.OpStr Model.Multiline
-     Proofs.OpStrP Proofs.MultilineP.
+From AC Require Import Base.Strs Base.Sexp Gql.Schema Gql.Doc Gql.Lex Model.Results Model.OpStr Model.Multiline
+     Proofs.OpStrP Proofs.MultilineP Proofs.LexP.
 Import ListNotations.
 Local Open Scope string_scope.
 Local Open Scope list_scope.
@@ -252,4 +252,51 @@ Print Assumptions C02_indent_uniform.
 Example C02_regression_blank_line_of_block_string :
   let lines := [L "query A {"; L "  echo(s: """""""; L "  a"; L "     "; L "  b"; L "  """""")"; L "}"] in
   client_embed lines = EvOk (uniform 12 lines) client_suffix.
+Proof. vm_compute. reflexivity. Qed.
+
+(* ================================================================= E. the same token stream *)
+(* Gql/Lex.v: punctuators, the spread, words, strings (raw), block strings (raw); blanks, line terminators,
+   commas, comments ignored.  What the rewriter adds — a leading line feed, blanks before the lines and at
+   the end — does not change the token stream, for lines that start no block string (inside a block
+   string the indentation is content: C02_indent_uniform is the statement there). *)
+Definition starts_no_block (l : chars) : bool := LexP.no_nl l && LexP.nodq3 l.
+
+Lemma embedded_laid_out k lines :
+  embedded k lines = LexP.laid_out (fun l => match l with [] => 0 | _ => k end) k lines.
+Proof.
+  unfold embedded, LexP.laid_out, indented. f_equal. f_equal.
+  induction lines as [|l ls IH]; [reflexivity|]. cbn [flat_map]. rewrite IH. destruct l; reflexivity.
+Qed.
+
+Theorem C02_tokens_preserved : forall k lines,
+  Forall (fun l => starts_no_block l = true) lines ->
+  Lex.tokens (embedded k lines) = Lex.tokens (joined lines).
+Proof.
+  intros k lines H. rewrite embedded_laid_out. apply LexP.layout_ignored.
+  eapply Forall_impl; [|exact H]. intros l Hl. apply andb_true_iff in Hl. exact Hl.
+Qed.
+Print Assumptions C02_tokens_preserved.
+
+(* end to end for the generated method: whatever the lines (no block string started), the literal evaluates
+   to a text with the token stream of the operation string *)
+Theorem C02_embed_same_tokens : forall lines,
+  lines <> [] -> Forall (fun l => starts_no_block l = true) lines ->
+  exists v, client_embed lines = EvOk v client_suffix /\ Lex.tokens v = Lex.tokens (joined lines).
+Proof.
+  intros lines Hne H.
+  assert (Hn : Forall (fun l => has NL l = false) lines).
+  { eapply Forall_impl; [|exact H]. intros l Hl. apply andb_true_iff in Hl as [Hl _].
+    apply has_false. intros x Hx E. subst. unfold LexP.no_nl in Hl. rewrite forallb_forall in Hl.
+    specialize (Hl _ Hx). discriminate. }
+  destruct (C02_embed lines Hne Hn) as (v & Ev & [-> | ->]).
+  - exists (joined lines). auto.
+  - exists (embedded 12 lines). split; [exact Ev | apply C02_tokens_preserved; exact H].
+Qed.
+Print Assumptions C02_embed_same_tokens.
+
+Example C02_tokens_example :
+  Lex.tokens (L "query A($v: Int = 3) { ...F  echo(s: ""a # \"" b"", n: -1.5e3) # c") =
+  Some [TW (L "query"); TW (L "A"); TP "("; TP "$"; TW (L "v"); TP ":"; TW (L "Int"); TP "="; TW (L "3"); TP ")";
+        TP "{"; TSpread; TW (L "F"); TW (L "echo"); TP "("; TW (L "s"); TP ":"; TS (L "a # \"" b");
+        TW (L "n"); TP ":"; TW (L "-1.5e3"); TP ")"]%char.
 Proof. vm_compute. reflexivity. Qed.
